@@ -812,6 +812,11 @@ package gateway
 //@   requires [C25] cfg: gwCfgOK(gw)
 //@   assigns *
 //@   loop 0 invariant [C25] cfg: gwCfgOK(gw) && handlerCfg != nil && handlerCfg.RetryCount == gw.cfg.RetryCount
+// every session runs with the gateway's configuration: what C07/C08 say "as configured" (AuthEnabled), the broker credentials (C08, C31) and the
+// retry budget (C19) are read by the steps from the handler's copy
+//@   at newHandler.0 before assert [C07,C08,C19,C25] sessions_get_the_gateway_configuration: arg(0).AuthEnabled == gw.cfg.AuthEnabled &&
+//@      arg(0).MqttUser == gw.cfg.MqttUser && sameSlice(arg(0).MqttPassword, gw.cfg.MqttPassword) && arg(0).MqttBrokerAddress == gw.cfg.MqttBrokerAddress &&
+//@      arg(0).MqttConnectionTimeout == gw.cfg.MqttConnectionTimeout && arg(0).RetryDelay == gw.cfg.RetryDelay && arg(0).RetryCount == gw.cfg.RetryCount
 //@ func (*Gateway).ListenAndServe$2
 //@   requires [C25] fresh_session: handler != nil && handler.cfg != nil && handler.state != nil && state(handler) == 0 && bufWF(handler) &&
 //@      handler.transactions != nil && storeInv(handler.transactions) && topicSeq(handler) && regTypes(handler) && boundOnce(handler) && txEntries(handler) &&
